@@ -16,20 +16,25 @@ def generate(rng, tier, shard, nshards):
         srn = ["Sat3", "Sat3", "RatU", "Bool", "Sat2", "Rat"][i % 6]
         acyc = srn in ("RatU", "Rat") or i % 5 == 0
         nA, nB = rng.choice([(2, 3), (3, 2), (2, 2), (3, 3), (1, 3)])
-        if i % 3 == 1:
+        fam_ix = (i // 2) % 3          # independent of the semiring rotation
+        if fam_ix == 1:
             # epsilon-heavy on the matching tape: runs of epsilon-output moves in A against runs of epsilon-input moves in B
             A = aops.rand_fst(rng, srn, nS=nA, narcs=rng.choice([4, 6]), outs=("", "", "a", "b"), acyclic=acyc)
             B = aops.rand_fst(rng, srn, nS=nB, narcs=rng.choice([4, 6]), ins=("", "", "a", "b"), acyclic=acyc)
-        elif i % 3 == 2:
-            # few states, many arcs: parallel arcs that differ only in the intermediate symbol
-            nA, nB = rng.choice([(1, 1), (1, 2), (2, 1), (2, 2)])
-            A = aops.rand_fst(rng, srn, nS=nA, narcs=rng.choice([5, 7]), ins=("a", "b"), outs=("a", "b"), acyclic=False)
-            B = aops.rand_fst(rng, srn, nS=nB, narcs=rng.choice([5, 7]), ins=("a", "b"), outs=("a", "b"), acyclic=False)
-            acyc = False
-            if srn in ("RatU", "Rat"):
-                srn = "Sat3"
-                A = aops.rand_fst(rng, srn, nS=nA, narcs=6, ins=("a", "b"), outs=("a", "b"))
-                B = aops.rand_fst(rng, srn, nS=nB, narcs=6, ins=("a", "b"), outs=("a", "b"))
+        elif fam_ix == 2:
+            # several intermediate strings y link the same pair of paths (sum over y, not "last y"): acyclic 2-3 state
+            # machines over {a,b} with parallel arcs that differ only in the intermediate symbol.  Acyclic, so that
+            # exact rationals apply (a saturating semiring would hide a lost term on dense machines).
+            nA, nB = rng.choice([(2, 2), (2, 3), (3, 2)])
+            A = aops.rand_fst(rng, srn, nS=nA, narcs=rng.choice([2, 4]), ins=("a", "b"), outs=("a", "b"), acyclic=True)
+            B = aops.rand_fst(rng, srn, nS=nB, narcs=rng.choice([2, 4]), ins=("a", "b"), outs=("a", "b"), acyclic=True)
+            x, z = rng.choice(["a", "b"]), rng.choice(["a", "b"])
+            w1, w2 = A["I"][0][1], B["I"][0][1]
+            A["arcs"] += [[0, x, "a", nA - 1, w1], [0, x, "b", nA - 1, w2 if srn not in ("Bool",) else 1]]
+            B["arcs"] += [[0, "a", z, nB - 1, w2], [0, "b", z, nB - 1, w1 if srn not in ("Bool",) else 1]]
+            A["F"].append([nA - 1, w1])
+            B["F"].append([nB - 1, w2])
+            acyc = True
         else:
             A = aops.rand_fst(rng, srn, nS=nA, narcs=rng.choice([2, 4, 5]), acyclic=acyc)
             B = aops.rand_fst(rng, srn, nS=nB, narcs=rng.choice([2, 4, 5]), acyclic=acyc)
